@@ -193,18 +193,26 @@ func (v *Vue) evalObjectBinding(ctx VueContext, attrName, expr string) string {
 
 	// For other attributes, just concatenate all values
 	var values []string
-	for _, v := range pairs {
-		if v != "" {
-			values = append(values, v)
+	for _, pair := range pairs {
+		if pair.defined && pair.value != nil {
+			values = append(values, fmt.Sprintf("%s:%v", pair.key, pair.value))
 		}
 	}
 	return strings.Join(values, " ")
 }
 
+// objectPair is one key: value entry of an object literal, with the value as evaluated
+// (typed, not stringified).
+type objectPair struct {
+	key     string
+	value   any
+	defined bool // false when the value expression could not be resolved
+}
+
 // parseObjectPairs parses key:value pairs from an object literal.
-// Returns a slice of resolved values in order.
-func (v *Vue) parseObjectPairs(ctx VueContext, content string) []string {
-	var pairs []string
+// Returns the pairs in order, with their evaluated (typed) values.
+func (v *Vue) parseObjectPairs(ctx VueContext, content string) []objectPair {
+	var pairs []objectPair
 
 	// Split by comma, but respect quoted strings
 	items := v.splitObjectItems(content)
@@ -232,13 +240,12 @@ func (v *Vue) parseObjectPairs(ctx VueContext, content string) []string {
 			var ok bool
 			val, ok = ctx.stack.Resolve(valueExpr)
 			if !ok {
-				pairs = append(pairs, "")
+				pairs = append(pairs, objectPair{key: key})
 				continue
 			}
 		}
 
-		// Store both key and resolved value
-		pairs = append(pairs, fmt.Sprintf("%s:%v", key, val))
+		pairs = append(pairs, objectPair{key: key, value: val, defined: true})
 	}
 
 	return pairs
@@ -283,28 +290,16 @@ func (v *Vue) splitObjectItems(content string) []string {
 }
 
 // buildClassString builds a space-separated class string from key:value pairs.
-// Includes key only if the boolean value is truthy.
-func (v *Vue) buildClassString(pairs []string) string {
+// Includes a key only if its value is truthy (the same rule as v-if and bound attributes).
+func (v *Vue) buildClassString(pairs []objectPair) string {
 	var classes []string
 
 	for _, pair := range pairs {
-		pair = strings.TrimSpace(pair)
-		if pair == "" {
+		if pair.key == "" {
 			continue
 		}
-
-		colonIdx := strings.Index(pair, ":")
-		if colonIdx == -1 {
-			continue
-		}
-
-		key := strings.TrimSpace(pair[:colonIdx])
-		valueStr := strings.TrimSpace(pair[colonIdx+1:])
-
-		// Check if value is truthy using the actual type
-		val := parseValue(valueStr)
-		if helpers.IsTruthy(val) {
-			classes = append(classes, key)
+		if pair.defined && helpers.IsTruthy(pair.value) {
+			classes = append(classes, pair.key)
 		}
 	}
 
@@ -314,22 +309,16 @@ func (v *Vue) buildClassString(pairs []string) string {
 // buildStyleString builds a CSS style string from key:value pairs.
 // Each pair becomes a property:value; entry.
 // camelCase keys are automatically converted to kebab-case (e.g., fontSize -> font-size).
-func (v *Vue) buildStyleString(pairs []string) string {
+func (v *Vue) buildStyleString(pairs []objectPair) string {
 	var styles []string
 
 	for _, pair := range pairs {
-		pair = strings.TrimSpace(pair)
-		if pair == "" {
+		if pair.key == "" || !pair.defined || pair.value == nil {
 			continue
 		}
 
-		colonIdx := strings.Index(pair, ":")
-		if colonIdx == -1 {
-			continue
-		}
-
-		key := strings.TrimSpace(pair[:colonIdx])
-		value := strings.TrimSpace(pair[colonIdx+1:])
+		key := pair.key
+		value := strings.TrimSpace(fmt.Sprint(pair.value))
 
 		// Remove quotes if present
 		value = strings.Trim(value, "\"'")
